@@ -33,20 +33,32 @@ class ClassInfo:
                 self.attrs[st.target.id] = st.value
 
 
+_NORMALISED = {}      # hash(source text) -> (normalised text, alpha mapping, canon report): the 20 checks of one tree share the work
+
+
 class SourceModel:
     def __init__(self, text, filename="nmfu.py"):
         self.text = text
         self.filename = filename
-        try:
-            self.tree = ast.parse(text, filename)
-        except SyntaxError as e:
-            raise AnalysisError(f"source does not parse: {e}")
-        from . import alpha
-        self.alpha_applied = alpha.normalise(self.tree)     # locals renamed back to the reference names (behaviour-preserving; see alpha.py)
-        from . import canon
-        self.canon_applied = canon.restore(self.tree)       # behaviour-preserving rewrites restored to the reference's spelling (see canon.py)
-        if self.canon_applied:
-            self.tree = ast.parse(ast.unparse(ast.fix_missing_locations(self.tree)))      # consistent positions again
+        key = hash(text)
+        if key in _NORMALISED:
+            norm, self.alpha_applied, self.canon_applied = _NORMALISED[key]
+            self.tree = ast.parse(norm, filename)
+        else:
+            try:
+                self.tree = ast.parse(text, filename)
+            except SyntaxError as e:
+                raise AnalysisError(f"source does not parse: {e}")
+            from . import alpha
+            self.alpha_applied = alpha.normalise(self.tree)     # locals renamed back to the reference names (behaviour-preserving; see alpha.py)
+            from . import canon
+            self.canon_applied = canon.restore(self.tree)       # behaviour-preserving rewrites restored to the reference's spelling (see canon.py)
+            if self.canon_applied or self.alpha_applied:
+                norm = ast.unparse(ast.fix_missing_locations(self.tree))
+                self.tree = ast.parse(norm, filename)           # consistent positions again
+                if len(_NORMALISED) > 4:
+                    _NORMALISED.clear()
+                _NORMALISED[key] = (norm, self.alpha_applied, self.canon_applied)
         self.classes = {}
         self.functions = {}       # qualified name -> FunctionDef
         self.module_assigns = {}  # name -> value node (last assignment at module level)
